@@ -52,8 +52,8 @@ FIVE_YEARS = 157766400
 
 # ---- random DSDL namespaces ---------------------------------------------------------------------------------------------
 ROOTS = ['nsa', 'zoo', 'regx', 'acme', 'm1']
-SUBS = ['sub', 'top', 'inner', 'aa', 'zz', 'b2', 'mid']
-SHORTS = ['Alpha', 'Beta', 'Gamma', 'Delta', 'Eps', 'Zeta', 'Eta', 'Theta', 'Iota', 'Kappa', 'A', 'Z9', 'Mu_x']
+SUBS = ['sub', 'top', 'inner', 'aa', 'zz', 'b2', 'mid', 'u7', 'u07', 'u007', 'x10', 'x010']   # u7/u07...: tie under natural sort
+SHORTS = ['T7', 'T07', 'V1x', 'V01x', 'Alpha', 'Beta', 'Gamma', 'Delta', 'Eps', 'Zeta', 'Eta', 'Theta', 'Iota', 'Kappa', 'A', 'Z9', 'Mu_x']
 PRIMS = ['uint8', 'int16', 'float32', 'bool', 'uint7', 'float64', 'uint8[3]', 'int32[<=4]', 'bool[5]', 'float16']
 
 
@@ -172,12 +172,12 @@ def runs_audit_on() -> typing.List[dict]:
     ]
 
 
-def mk_case(cid: str, lang: str, args: typing.List[str], ns: dict, audit: bool) -> dict:
+def mk_case(cid: str, lang: str, args: typing.List[str], ns: dict, audit: bool, user_templates: typing.Optional[str] = None) -> dict:
     dsdl, lookup = case_files(ns)
     a = LANG[lang]['base'] + list(args) + (['--embed-auditing-info'] if audit else [])
     return dict(id=cid, lang=lang, args=a, dsdl=dsdl, lookup=lookup, root=ns['root'],
                 lookup_roots=sorted({t['ns'][0] for t in ns['lookup']}), runs=runs_audit_on() if audit else runs_audit_off(),
-                audit=audit, ns=ns, opt=args)
+                audit=audit, ns=ns, opt=args, user_templates=user_templates)
 
 
 _D0 = dict(ns=['dep', 'far'], short='D0', major=0, minor=1, kind='struct', fields=[('prim', 'uint8')], resp=[])
@@ -202,6 +202,14 @@ def state_trigger(case: dict, rel: str, run: dict) -> bool:
     return False
 
 
+def _t(ns, short, fields=None):
+    return dict(ns=ns, short=short, major=1, minor=0, kind='struct', fields=fields or [('prim', 'uint8')], resp=[])
+
+
+WITNESS_NATSORT_NS = dict(root='nat', lookup=[], types=[
+    _t(['nat', 'unit7'], 'T7'), _t(['nat', 'unit07'], 'T07'), _t(['nat', 'unit007'], 'T007'), _t(['nat', 'x10'], 'A'),
+    _t(['nat', 'x010'], 'A'), _t(['nat', 'unit7'], 'T07'), _t(['nat'], 'V1'), _t(['nat'], 'V01')])
+
 WITNESS_NS = dict(root='ns', lookup=[], types=[
     dict(ns=['ns'], short='A', major=1, minor=0, kind='struct', fields=[('prim', 'uint8')], resp=[])])
 
@@ -209,7 +217,7 @@ WITNESS_NS = dict(root='ns', lookup=[], types=[
 def run_impl(cases: typing.List[dict], jobs: int = 6) -> typing.Dict[str, dict]:
     base = core.scratch('c07-')
     doc = {'base': base, 'jobs': jobs,
-           'cases': [{k: c[k] for k in ('id', 'lang', 'args', 'dsdl', 'lookup', 'root', 'lookup_roots', 'runs')} for c in cases]}
+           'cases': [{k: c[k] for k in ('id', 'lang', 'args', 'dsdl', 'lookup', 'root', 'lookup_roots', 'runs', 'user_templates') if k in c} for c in cases]}
     p = core.run([core.PY, os.path.join(core.VERIF, 'tools', 'harness', 'c07_impl.py')], input=json.dumps(doc),
                  env=core.repo_env(), timeout=3000)
     shutil.rmtree(base, ignore_errors=True)
@@ -292,9 +300,9 @@ def coq_case(i: int, case: dict, res: dict, pickle_live: bool, state_live: bool 
             ckey(t), '; '.join(ckey(d) for d in deps_of(t)), cpath(std), cpath(relpath(t).split('/'))))
     lines = ['Definition I_%d : list tydecl := [\n  %s ].' % (i, ';\n  '.join(decls))]
     lines.append('Definition c_%d : cfg := {| c_lang := %s; c_ext := %s; c_stem := %s; c_gen_ns := %s; c_embed_audit := %s; '
-                 'c_omit_ser := %s; c_prefer_sys := %s; c_support_incs := %s; c_support_files := [%s] |}.' % (
+                 'c_omit_ser := %s; c_prefer_sys := %s; c_support_incs := %s; c_support_files := [%s]; c_user_templates := %s |}.' % (
                      i, L['coq'], cs(L['ext']), cs(L['stem']), cbool(L['gen_ns']), cbool(case['audit']), cbool(omit), cbool(L['sys']),
-                     cpath(sup_inc), '; '.join(cpath(f.split('/')) for f in support_files)))
+                     cpath(sup_inc), '; '.join(cpath(f.split('/')) for f in support_files), cbool(bool(case.get('user_templates')))))
     tbl = 'gen_sites' if (pickle_live or case['lang'] != 'py') else '(drop_pickle gen_sites)'
 
     def env_of(j: int, r: dict) -> str:
@@ -370,19 +378,19 @@ def shrink(case: dict, bad_run: str, still_fails) -> dict:
             budget -= 1
             if budget <= 0:
                 break
-            c2 = mk_case(case['id'] + '-s', case['lang'], case['opt'], cand, case['audit'])
+            c2 = mk_case(case['id'] + '-s', case['lang'], case['opt'], cand, case['audit'], case.get('user_templates'))
             c2['runs'] = [r for r in c2['runs'] if r['name'] in ('R0', bad_run)]
             if still_fails(c2):
                 cur = cand
                 changed = True
                 break
-    out = mk_case(case['id'] + '-min', case['lang'], case['opt'], cur, case['audit'])
+    out = mk_case(case['id'] + '-min', case['lang'], case['opt'], cur, case['audit'], case.get('user_templates'))
     out['runs'] = [r for r in out['runs'] if r['name'] in ('R0', bad_run)]
     return out
 
 
 def strip(case: dict) -> dict:
-    return {k: case[k] for k in ('id', 'lang', 'args', 'dsdl', 'lookup', 'root', 'lookup_roots', 'runs', 'audit', 'opt', 'ns')}
+    return {k: case[k] for k in ('id', 'lang', 'args', 'dsdl', 'lookup', 'root', 'lookup_roots', 'runs', 'audit', 'opt', 'ns', 'user_templates') if k in case}
 
 
 # ---- main ----------------------------------------------------------------------------------------------------------------------
@@ -405,12 +413,21 @@ def build_cases(chk: core.Check) -> typing.List[dict]:
     cases[0]['runs'] = [r for r in cases[0]['runs'] if r['name'] in ('R0', 'Rloc', 'Rh1')]
     cases.append(mk_case('w-state', 'py', [], WITNESS_STATE_NS, False))
     cases[1]['runs'] = [r for r in cases[1]['runs'] if r['name'] in ('R0', 'Rh1', 'Rh2', 'Rclk')]
+    # corpus: F-HTML-NATSORT-TIE (fixed): sibling namespaces and types whose names tie under the natural-sort key
+    cases.append(mk_case('w-natsort', 'html', [], WITNESS_NATSORT_NS, False))
+    cases[-1]['runs'] = [dict(name='R0', hashseed='0', loc='A', cwd='loc', paths='rel', wave=0)] + [
+        dict(name='Rh%s' % h, hashseed=h, loc='A', cwd='loc', paths='rel', wave=1) for h in ('1', '2', '3', '4', '5')]
+    # corpus: user template directories (copies of the built-in ones) that move with the inputs
+    for lang, mode in (('cpp', 'both'), ('c', 'tpl'), ('py', 'tpl')) if chk.tier == 'quick' else (('cpp', 'both'), ('cpp', 'tpl'), ('c', 'both'), ('py', 'both'), ('html', 'tpl')):
+        cases.append(mk_case('t-%s-%s' % (lang, mode), lang, [], WITNESS_STATE_NS if lang != 'py' else WITNESS_NS, False, user_templates=mode))
+        cases[-1]['runs'] = [r for r in cases[-1]['runs'] if r['name'] in ('R0', 'Rh1', 'Rcwd', 'Rloc', 'Rall')]
     for k in range(n_ns):
         ns = gen_namespace(rng, rng.choice([2, 3, 4, 6, 8]))
         for lang in ('c', 'cpp', 'py', 'html'):
             opts = OPTION_SETS[lang]
             args = opts[(k + rng.randrange(len(opts))) % len(opts)] if chk.tier == 'quick' else rng.choice(opts)
-            cases.append(mk_case('n%d-%s' % (k, lang), lang, args, ns, False))
+            ut = rng.choice(['tpl', 'both']) if rng.random() < 0.2 else None
+            cases.append(mk_case('n%d-%s' % (k, lang), lang, args, ns, False, user_templates=ut))
     n_audit = 1 if chk.tier == 'quick' else 4
     for k in range(n_audit):
         ns = gen_namespace(rng, rng.choice([3, 5]))
@@ -420,8 +437,11 @@ def build_cases(chk: core.Check) -> typing.List[dict]:
 
 
 def main(chk: core.Check, replay: typing.Optional[str] = None) -> int:
+    import time as _time
     load_fragment(chk)
+    _t0 = _time.time()
     res = core.coq_check('C07', ['repro'])
+    chk.notes.append('phase coq_check %.1fs' % (_time.time() - _t0))
     chk.proof_coverage(res, [
         'tools/translators/gen_c07.py: Jinja block-structure scanner (gating of ambient uses in templates) and Python ast scans '
         '(sorted(), set iterations, ambient reads, gating in _create_platform_version)',
@@ -447,7 +467,10 @@ def main(chk: core.Check, replay: typing.Optional[str] = None) -> int:
     else:
         cases = build_cases(chk)
 
+    _t0 = _time.time()
     results = run_impl(cases)
+    chk.notes.append('phase nnvg runs %.1fs' % (_time.time() - _t0))
+    _t0 = _time.time()
 
     # probe the known finding on the implementation (witness = first case unless replaying)
     pickle_live = False
@@ -479,7 +502,7 @@ def main(chk: core.Check, replay: typing.Optional[str] = None) -> int:
 
     stats = {'cases': len(cases), 'runs': 0, 'files_hashed': 0, 'pairs_compared': 0, 'file_pairs_compared': 0,
              'known_finding_instances': 0, 'audit_on_cases': 0, 'audit_on_file_pairs_differing': 0, 'audit_on_file_pairs_equal': 0,
-             'model_checks': 0, 'by_lang': {}, 'with_lookup_deps': 0, 'with_nested_ns': 0, 'with_service': 0, 'with_union': 0,
+             'model_checks': 0, 'by_lang': {}, 'with_lookup_deps': 0, 'with_nested_ns': 0, 'with_service': 0, 'with_union': 0, 'with_user_templates': 0, 'with_natsort_ties': 0,
              'types_total': 0, 'invalid_inputs': 0, 'known_state_instances': 0, 'pairs_with_different_write_order': 0}
     violations: typing.List[typing.Tuple[dict, dict]] = []
     distinct = set()
@@ -489,6 +512,9 @@ def main(chk: core.Check, replay: typing.Optional[str] = None) -> int:
         stats['by_lang'][c['lang']] = stats['by_lang'].get(c['lang'], 0) + 1
         ns = c.get('ns', {})
         stats['with_lookup_deps'] += bool(ns.get('lookup'))
+        stats['with_user_templates'] += bool(c.get('user_templates'))
+        _subs = {tuple(t['ns']) for t in ns.get('types', [])}
+        stats['with_natsort_ties'] += len({(n[:-1], re.sub(r'0+(?=\d)', '', n[-1].lower())) for n in _subs if n}) < len(_subs)
         stats['with_nested_ns'] += any(len(t['ns']) > 1 for t in ns.get('types', []))
         stats['with_service'] += any(t['kind'] == 'service' for t in ns.get('types', []))
         stats['with_union'] += any(t['kind'] == 'union' for t in ns.get('types', []))
@@ -532,6 +558,7 @@ def main(chk: core.Check, replay: typing.Optional[str] = None) -> int:
 
     # model vs implementation
     model, labels, log = run_model(usable, results, quirk, state_quirk) if res.ok or os.path.exists(os.path.join(core.COQ, 'theories', 'Gen', 'Repro.vo')) else (None, [], 'model not built')
+    chk.notes.append('phase probes+model %.1fs' % (_time.time() - _t0))
     bad_model = []
     if model is None:
         broken.append('model cases do not evaluate: ' + log[-400:])
